@@ -43,7 +43,7 @@ def _world(be, acct=True):
 
 
 # ---------------------------------------------------------------- Q8a state tables
-def _q8a_slurm(where, code_q, code_a, acct, foreign):
+def _q8a_slurm(where, code_q, code_a, acct, foreign, bfin):
     """where: 0 = row in the live queue (and, accounting on, possibly a stale accounting row),
     1 = accounting row only, 2 = no record anywhere."""
     if where != q.SHARD["where"]:
@@ -62,6 +62,7 @@ def _q8a_slurm(where, code_q, code_a, acct, foreign):
     cq = q.pick(SQ, code_q)
     ca = q.pick(SA + [None], code_a)
     acct = True if acct else False
+    bfin = True if bfin else False
     fo = q.pick(FOREIGN, foreign)
     if where == 2 and (code_q != 0 or code_a != 0):
         return q.SKIP
@@ -81,7 +82,11 @@ def _q8a_slurm(where, code_q, code_a, acct, foreign):
                 return q.SKIP
             w.sim.add_job("55", "A", "gone", in_queue=False)
             w.sim.acct_lag["55"] = ca
-        w.sim.add_job("56", "B", "R", in_queue=True)
+        if bfin:          # the other tracked job is finished: only accounting knows it
+            w.sim.add_job("56", "B", "gone", in_queue=False)
+            w.sim.acct_lag["56"] = "FAILED"
+        else:
+            w.sim.add_job("56", "B", "R", in_queue=True)
         w.sim.foreign = [(i, c) for i, c in fo]
         w.install()
     try:
@@ -98,8 +103,9 @@ def _q8a_slurm(where, code_q, code_a, acct, foreign):
             cls, src = "U", "no record"
         if not SS.ok(cls, got):
             return "%s (accounting %s, stale sacct row %r): shown as %s, allowed %s" % (src, acct, ca if where == 0 else None, got, SS.ALLOWED[cls])
-        if backend.status(T["B"]).name != "RUNNING":
-            return "the other tracked target B (running) is shown as %s" % backend.status(T["B"]).name
+        want_b = "RUNNING" if not bfin else ("FAILED" if acct else "UNKNOWN")
+        if backend.status(T["B"]).name != want_b:
+            return "the other tracked target B is shown as %s, expected %s" % (backend.status(T["B"]).name, want_b)
         if backend.status(T["C"]).name != "UNKNOWN":
             return "untracked target C shown as %s" % backend.status(T["C"]).name
         return ""
@@ -150,11 +156,11 @@ def _q8a_other(code, foreign):
         w.uninstall()
 
 
-def q8a_slurm(where: int, code_q: int, code_a: int, acct: bool, foreign: int) -> str:
+def q8a_slurm(where: int, code_q: int, code_a: int, acct: bool, foreign: int, bfin: bool) -> str:
     """
     post: _ == ""
     """
-    return q.run(_q8a_slurm, (where, code_q, code_a, acct, foreign))
+    return q.run(_q8a_slurm, (where, code_q, code_a, acct, foreign, bfin))
 
 
 def q8a_other(code: int, foreign: int) -> str:
@@ -301,7 +307,7 @@ QUERIES = [
                           {"where": 1, "foreign": [0, 2]}, {"where": 2, "foreign": [0, 1, 2, 3, 4]}],
                 "thorough": [{"where": 0, "lags": [k], "foreign": [0, 1, 2, 3, 4]} for k in range(len(SA) + 1)] + [{"where": 1, "foreign": [0, 1, 2, 3, 4]}, {"where": 2, "foreign": [0, 1, 2, 3, 4]}]},
      "timeout": {"quick": 900, "thorough": 1800},
-     "bound": "own job: row in squeue with each of the 24 documented codes (with each of 16 stale sacct states or none), or accounting row only (16 states), or no record; accounting on/off; 5 sets of unrelated jobs incl. id prefix/extension collisions (5, 555, 1055 vs 55)"},
+     "bound": "own job: row in squeue with each of the 24 documented codes (with each of 16 stale sacct states or none), or accounting row only (16 states), or no record; accounting on/off; the other tracked job running or finished (accounting only); 5 sets of unrelated jobs incl. id prefix/extension collisions (5, 555, 1055 vs 55)"},
     {"name": "Q8a-other", "fn": q8a_other, "shards": [{"be": "lsf"}, {"be": "sge"}, {"be": "local"}], "timeout": 600,
      "bound": "own job in each documented state of bjobs (12 incl. empty answer) / qstat (22 incl. absent) / the pool (8 incl. absent); 5 sets of unrelated jobs"},
     {"name": "Q8c", "fn": q8c, "shards": [{"be": b} for b in ("slurm", "sge", "lsf", "local")], "timeout": 600,
